@@ -1287,8 +1287,33 @@ func (g *Gen) alloc(fr *Frame, st *State, x *ssa.Alloc) {
 		fr.vals[x] = Val{T: r, P: &Ptr{Kind: PHeapArr, Ref: r, ElemT: u.Elem(), RootT: t}}
 		return
 	}
+	if x.Heap && addressStored(x) {
+		// new(T) whose address is stored in the heap or returned: a heap scalar with a fresh reference
+		r := g.allocRef(st, x.Comment)
+		p := &Ptr{Kind: PHeapScalar, Ref: r, RootT: t}
+		k, s := g.scalarKey(t)
+		g.heapSet(st, k, s, sx("store", g.heapGet(st, k, s), r, g.zero(t)))
+		fr.vals[x] = Val{T: r, P: p}
+		return
+	}
 	st.cells[x] = Val{T: g.zero(t)}
 	fr.vals[x] = Val{P: &Ptr{Kind: PCell, Cell: x, RootT: t}, T: g.addrConst(fmt.Sprintf("%s_%s_%d", fr.fn.Name(), x.Comment, len(fr.vals)))}
+}
+
+// addressStored: is the address of this local stored into memory or returned (as opposed to
+// only being captured by closures or passed to calls)?
+func addressStored(x *ssa.Alloc) bool {
+	for _, r := range *x.Referrers() {
+		switch y := r.(type) {
+		case *ssa.Store:
+			if y.Val == x {
+				return true
+			}
+		case *ssa.Return, *ssa.MakeInterface, *ssa.Send:
+			return true
+		}
+	}
+	return false
 }
 
 func (g *Gen) unop(fr *Frame, st *State, x *ssa.UnOp) {
